@@ -166,6 +166,11 @@ where
                 vfs::scan_workdirs(rt);
             });
             match stopped {
+                Some(site) if site == worker::BLOCKED_FOREVER => {
+                    // not woken again: the task standing for the closure never becomes ready
+                    with(|rt| rt.ev("fs-call", "open of a named pipe without a writer: the blocking closure never returns"));
+                    std::task::Poll::Pending
+                }
                 Some(site) => {
                     // the thread is parked BEFORE the call: the fault plan may make it fail
                     // (`sys.<call>`: eio / enospc / eacces), be interrupted (eintr) or, for
